@@ -199,3 +199,183 @@ pub fn drive(ctx: &Ctx, suite: &Suite, oracle: Oracle) {
         ctx.class_n("sweep: 16-bit windows of ME/MB x 65536 values", total as u64);
     }
 }
+
+// ------------------------------------------------------------------------------------------------
+// History independence: what the decoder makes of a byte string is a function of those bytes only.
+// A family is a few related inputs (same Comm-B payload under different headers, a truncated copy of a frame and
+// the frame, the same message field under DF17 and DF18, one bit apart, ...). Every member is evaluated several
+// times on one thread: in the given order, in reverse order, and alone right after an unrelated "flush" input.
+// All evaluations of one member must agree (a cache keyed by part of the input, a scratch buffer that survives an
+// error return, ... make them differ).
+
+/// Related byte strings built from one generated frame.
+pub fn family() -> impl Strategy<Value = Vec<Vec<u8>>> {
+    use vcore::enc;
+    let generic = (gen::frame(), 0u8..7, any::<u64>()).prop_map(|((_, f), kind, r)| {
+        let mut fam = vec![f.clone()];
+        let n = f.len();
+        let mut rr = vcore::ev::SplitMix::new(r);
+        if n < 7 {
+            fam.push(f.iter().map(|b| b ^ 0x10).collect());
+            return fam;
+        }
+        let df = f[0] >> 3;
+        let ap = matches!(df, 0 | 4 | 5 | 16 | 20 | 21);
+        // keep the address (AP formats) or the parity (DF11/17/18) right after an edit of the payload
+        let fix = |orig: &[u8], edited: &mut Vec<u8>| {
+            let n = edited.len();
+            if matches!(df, 11 | 17 | 18) {
+                *edited = finish_frame(&edited[..n - 3], 0);
+            } else if ap {
+                let addr = {
+                    let p = vcore::bits::parity(&orig[..n - 3]);
+                    p ^ ((orig[n - 3] as u32) << 16 | (orig[n - 2] as u32) << 8 | orig[n - 1] as u32)
+                };
+                *edited = finish_frame(&edited[..n - 3], addr);
+            }
+        };
+        match kind {
+            0 => {
+                // same payload after byte 4, other header bits (AC / ID field), same address
+                for _ in 0..2 {
+                    let mut g = f.clone();
+                    let bit = 19 + (rr.below(13)) as usize;
+                    g[bit / 8] ^= 0x80 >> (bit % 8);
+                    fix(&f, &mut g);
+                    fam.push(g);
+                }
+            }
+            1 => {
+                // same header, payload one or two bits apart
+                let mut g = f.clone();
+                let hi = (n - 3) * 8;
+                for _ in 0..(1 + rr.below(2)) {
+                    let bit = 32 + rr.below((hi - 32) as u64) as usize;
+                    g[bit / 8] ^= 0x80 >> (bit % 8);
+                }
+                fix(&f, &mut g);
+                fam.push(g);
+            }
+            2 => {
+                // a truncated copy first (an error return), then the frame, then another truncation
+                let k = 1 + rr.below((n - 1) as u64) as usize;
+                fam.insert(0, f[..k].to_vec());
+                fam.push(f[..1 + rr.below((n - 1) as u64) as usize].to_vec());
+            }
+            3 => {
+                // too long / padded copies
+                let mut g = f.clone();
+                g.extend(std::iter::repeat((rr.next() as u8) & 1).take(1 + rr.below(8) as usize));
+                fam.insert(0, g);
+                if n == 7 {
+                    let mut z = f.clone();
+                    z.extend([0u8; 7]);
+                    fam.push(z);
+                }
+            }
+            4 => {
+                // the same 56-bit field under another downlink format
+                if n == 14 {
+                    for other in [17u8, 18, 20, 21, 16] {
+                        if other != df && rr.below(2) == 0 {
+                            let mut g = f.clone();
+                            g[0] = other << 3 | (f[0] & 7);
+                            if matches!(other, 17 | 18) {
+                                g = finish_frame(&g[..11], 0);
+                            }
+                            fam.push(g);
+                        }
+                    }
+                }
+                if fam.len() == 1 {
+                    let mut g = f.clone();
+                    g[0] ^= 0x08;
+                    fam.push(g);
+                }
+            }
+            5 => {
+                // same content, other address
+                let mut g = f.clone();
+                if ap {
+                    g[n - 1] ^= 1 << rr.below(8);
+                } else {
+                    g[1 + rr.below(3) as usize] ^= 1 << rr.below(8);
+                    fix(&f, &mut g);
+                }
+                fam.push(g);
+            }
+            _ => {
+                // the same frame again between two others
+                let mut g = f.clone();
+                g[n / 2] ^= 0xff;
+                fix(&f, &mut g);
+                fam.push(g);
+                fam.push(f.clone());
+            }
+        }
+        fam
+    });
+    // Comm-B replies whose payload reads as an airborne position: labelled BDS 0,5 only under a header with the
+    // same altitude. Same payload under headers with the same / a nearby / another altitude, in DF20 and DF21.
+    let df20 = (0u16..2047, 0u16..2047, 9u8..=18, any::<u32>(), any::<u32>(), any::<u64>()).prop_map(|(n1, n2, tc, yz, addr, r)| {
+        let mb = enc::me_airborne(&enc::AirborneMe { tc, ss: 0, saf: 0, alt12: enc::ac12_q(n1), t: 0, f: (r & 1) as u8, lat: yz & 0x1ffff, lon: (yz >> 15) & 0x1ffff });
+        let addr = addr & 0xffffff;
+        let near = if n1 < 2046 { n1 + 1 } else { n1 - 1 };
+        let mut fam = vec![enc::df20(0, 0, 0, enc::ac13_q(n1), &mb, addr), enc::df20(0, 0, 0, enc::ac13_q(n2), &mb, addr), enc::df20(0, 0, 0, enc::ac13_q(near), &mb, addr), enc::df21(0, 0, 0, enc::ac13_q(n1), &mb, addr), enc::df20(0, 0, 0, enc::ac13_q(n1), &mb, addr ^ 0x000100)];
+        // rotate so that the matching header is not always first
+        let k = (r >> 8) as usize % fam.len();
+        fam.rotate_left(k);
+        fam
+    });
+    prop_oneof![5 => generic, 2 => df20]
+}
+
+/// Evaluate a family under `eval` (the observable result as a string) and demand history independence.
+pub fn check_family(ctx: &Ctx, tag: &str, fam: &[Vec<u8>], eval: &(dyn Fn(&[u8]) -> String + Sync)) -> Check {
+    const FLUSH: [u8; 7] = [0x5d, 0x48, 0x40, 0xd6, 0x20, 0x2c, 0xc3]; // an all-call reply, unrelated to every family
+    let rep = serde_json::json!({"kind": "family", "frames": fam.iter().map(hex::encode).collect::<Vec<_>>()});
+    let mut seen: Vec<Vec<String>> = vec![vec![]; fam.len()];
+    let _ = eval(&FLUSH);
+    for (i, f) in fam.iter().enumerate() {
+        seen[i].push(eval(f));
+    }
+    let _ = eval(&FLUSH);
+    for (i, f) in fam.iter().enumerate().rev() {
+        seen[i].push(eval(f));
+    }
+    for (i, f) in fam.iter().enumerate() {
+        let _ = eval(&FLUSH);
+        seen[i].push(eval(f));
+    }
+    ctx.evals(3 * fam.len() as u64);
+    for (i, s) in seen.iter().enumerate() {
+        // equal inputs in one family share their results
+        if let Some(k) = (1..s.len()).find(|k| s[*k] != s[0]) {
+            let how = ["in the given order", "in reverse order", "alone after an unrelated input"][k];
+            return Err(Failure::new(
+                format!("{tag}:result-depends-on-history"),
+                format!("input {} ({}) gives\n  {}\n{how} but\n  {}\nin the given order", i, hex::encode(&fam[i]), s[k].chars().take(400).collect::<String>(), s[0].chars().take(400).collect::<String>()),
+                rep,
+            ));
+        }
+    }
+    if fam.len() >= 2 {
+        ctx.nontrivial(h64(&("family", fam)));
+    }
+    Ok(())
+}
+
+pub fn drive_families(ctx: &Ctx, tag: &'static str, cases: u32, eval: &(dyn Fn(&[u8]) -> String + Sync)) {
+    let shards = 16u32;
+    (0..shards).into_par_iter().for_each(|s| {
+        run_prop(ctx, &format!("families-{s}"), cases / shards, family(), |fam| {
+            ctx.class("family of related inputs (history independence)");
+            check_family(ctx, tag, fam, eval)
+        });
+    });
+}
+
+pub fn replay_family(ctx: &Ctx, tag: &str, v: &serde_json::Value, eval: &(dyn Fn(&[u8]) -> String + Sync)) {
+    let fam: Vec<Vec<u8>> = v["frames"].as_array().map(|a| a.iter().filter_map(|x| x.as_str().and_then(|s| hex::decode(s).ok())).collect()).unwrap_or_default();
+    ctx.judge(check_family(ctx, tag, &fam, eval));
+}
